@@ -310,6 +310,23 @@ func (h *Hist) Actions() map[string]func(*rapid.T) {
 			w.GetLimited(o, inst, max, asProto)
 			w.Poll()
 		}
+		// Reads with out-of-domain arguments (a ByteStream read_offset
+		// beyond the object, a negative offset, a ReadAt past the end): the
+		// consumer gets an error or nothing; the buffer must nevertheless
+		// have been released (leak oracles at quiescence).
+		a["getBadOffset"] = func(t *rapid.T) {
+			o := PickObj(t, w, "obj")
+			if o == nil {
+				fallback()
+				return
+			}
+			inst := rapid.SampledFrom(InstanceNames).Draw(t, "inst")
+			off := rapid.SampledFrom([]int64{-1, -7, 1, 2, 1 << 40}).Draw(t, "offKind")
+			how := rapid.SampledFrom([]string{"chunk", "readat"}).Draw(t, "how")
+			c.Add("getBadOffset", o.ID, inst, off, how)
+			w.GetBadOffset(o, inst, off, how)
+			w.Poll()
+		}
 		a["holdread"] = func(t *rapid.T) {
 			hs := w.OpenHolds()
 			if len(hs) == 0 {
